@@ -263,6 +263,9 @@ func (x *Exec) step(s *State, in ssa.Instruction) (cont bool) {
 		}
 		s.env[t] = binop(t.Op, a, b, t.Type())
 	case *ssa.Store:
+		if !x.atSite(s, in) {
+			return false
+		}
 		p := x.val(s, t.Addr)
 		v := x.val(s, t.Val)
 		if v.LV != nil {
@@ -289,6 +292,9 @@ func (x *Exec) step(s *State, in ssa.Instruction) (cont bool) {
 		x.freshRef[m.S] = true
 		s.env[t] = m
 	case *ssa.MapUpdate:
+		if !x.atSite(s, in) {
+			return false
+		}
 		m := x.val(s, t.Map)
 		k := x.val(s, t.Key)
 		v := x.val(s, t.Value)
